@@ -28,8 +28,11 @@ pub fn var_order<F: Function>(f: &F) -> Vec<Var> {
     order.into_iter().map(|v| v.unwrap()).collect()
 }
 
+/// Interval bounds on the wire: NaN canonical, and the sign of a zero bound dropped
+/// (f32::min / f32::max return either zero for equal zeros, depending on codegen).
 pub fn fmt_interval(i: &Interval) -> String {
-    format!("{} {}", canon_bits(i.lower()), canon_bits(i.upper()))
+    let z = |f: f32| if f == 0.0 { 0 } else { canon_bits(f) };
+    format!("{} {}", z(i.lower()), z(i.upper()))
 }
 
 /// Evaluates at a point; returns (outputs, trace as codes or None)
